@@ -18,7 +18,7 @@ from .. import core, loop17, ref
 
 LEVEL = "model_checking"
 RULE = ("initial conditions: position offset in {0} U {+-1.5}^3 x attitude in {level} U {30,60 deg} x {e1,e2,(1,1,0)/sqrt2} x both quaternion signs x v in {0,(1,-1,0.5)} x "
-        "w in {0,(1,-1,0.5)} x yaw set-point {0, 0.5, 2} x 2 control modes; a state = one 10 ms sample of the closed loop, a transition = one control period of the real functions. "
+        "w in {0,(1,-1,0.5)} x yaw set-point {0, 0.5, 2} x 2 control modes x set-point position {(0,0,5),(40,-30,20)}; a state = one 10 ms sample of the closed loop, a transition = one control period of the real functions. "
         "non-trivial = initial condition differs from hover at the set-point")
 ASSUMPTIONS = ["perfect state feedback (the estimator is C08/C11/C12's business)", "RK4 with 1 ms sub-steps is the plant integrator",
                "initial conditions between lattice points and beyond the envelope are not covered"]
@@ -41,23 +41,46 @@ def lattice(tier):
     ws = [(0.0, 0.0, 0.0), (1.0, -1.0, 0.5)]
     yaws = [0.0, 0.5, 2.0]
     modes = ["mellinger", "loglinear"]
-    dims = [len(offs), len(atts), 2, 2, 3, 2]
+    targets = [(0.0, 0.0, 5.0), (40.0, -30.0, 20.0)]
+    dims = [len(offs), len(atts), 2, 2, 3, 2, 2]
     full = list(itertools.product(*[range(d) for d in dims]))
     if tier != "thorough":
-        need = set((i, a, j, b) for i in range(6) for j in range(i + 1, 6) for a in range(dims[i]) for b in range(dims[j]))
+        need = set((i, a, j, b) for i in range(7) for j in range(i + 1, 7) for a in range(dims[i]) for b in range(dims[j]))
         chosen = []
         while need:
             best, bc = None, -1
             for c in full:
-                cov = sum(1 for i in range(6) for j in range(i + 1, 6) if (i, c[i], j, c[j]) in need)
+                cov = sum(1 for i in range(7) for j in range(i + 1, 7) if (i, c[i], j, c[j]) in need)
                 if cov > bc:
                     best, bc = c, cov
             chosen.append(best)
-            for i in range(6):
-                for j in range(i + 1, 6):
+            for i in range(7):
+                for j in range(i + 1, 7):
                     need.discard((i, best[i], j, best[j]))
         full = chosen
-    return [dict(off=offs[a], att=atts[b], v=vs[c], w=ws[d], yaw=yaws[e], mode=modes[f]) for a, b, c, d, e, f in full]
+    if tier == "thorough":
+        # the set-point position is a translation of the whole problem: full product at the first target, the pairwise-covering
+        # sub-lattice at the far one
+        far = [c[:6] + (1,) for c in lattice_index_cover(dims)]
+        full = [c for c in full if c[6] == 0] + far
+    return [dict(off=offs[a], att=atts[b], v=vs[c], w=ws[d], yaw=yaws[e], mode=modes[f], target=targets[g]) for a, b, c, d, e, f, g in full]
+
+
+def lattice_index_cover(dims):
+    full = list(itertools.product(*[range(d) for d in dims[:6]]))
+    need = set((i, a, j, b) for i in range(6) for j in range(i + 1, 6) for a in range(dims[i]) for b in range(dims[j]))
+    chosen = []
+    while need:
+        best, bc = None, -1
+        for c in full:
+            cov = sum(1 for i in range(6) for j in range(i + 1, 6) if (i, c[i], j, c[j]) in need)
+            if cov > bc:
+                best, bc = c, cov
+        chosen.append(best)
+        for i in range(6):
+            for j in range(i + 1, 6):
+                need.discard((i, best[i], j, best[j]))
+    return chosen
 
 
 def explore(case):
@@ -70,6 +93,7 @@ def explore(case):
     axv = np.array(ax, dtype=float)
     axv /= np.linalg.norm(axv)
     q = ref.quat_of(axv * th, sgn)
+    TARGET = np.array(cfg.get("target", (0.0, 0.0, 5.0)), dtype=float)
     x0 = np.concatenate([TARGET + np.array(cfg["off"]), cfg["v"], q, cfg["w"], np.full(4, hover)])
     tf = 20.0 if cfg["mode"] == "mellinger" else 30.0
     res.count("evaluations")
